@@ -98,10 +98,21 @@ class P:
                     elif kind == "S": reg, use, post = "REGS:%s:61" % hx(w), "PARSE:" + hx("1 %s" % w), "EXEC:1:" + hx("5 %s" % w)
                     elif kind == "I": reg, use, post = "REGI:%s:6f:0:0:61" % hx(w), "PARSE:" + hx("1 %s 2" % w), "EXEC:1:" + hx("5 %s 6" % w)
                     else: reg, use, post = "REGF:%s:61" % hx(w), "EXEC:2:" + hx("%s(1)" % w), "EXEC:1:" + hx("%s(5)" % w)
-                    uses = [use] * 6
-                    ops += ["||"] + (uses + [reg] if k % 3 else uses[:3] + [reg] + uses[3:]) + [";;", post]
+                    # twelve uses start 0, 0.5, .. 5.5 microseconds into the round; the registration is swept over the first 10 in steps of 0.25
+                    uses = ["~n%d/%s" % (j * 500, use) for j in range(12)]
+                    reg = "~n%d/%s" % ((k % 40) * 250, reg)
+                    # (the last thread to reach the barrier releases the others and runs on at once: a bystander)
+                    ops += ["||"] + (uses + [reg] if k % 3 else uses[:6] + [reg] + uses[6:]) + ["PARSE:" + hx("0"), ";;", post]
                 items.append((" ".join(ops), ("race", None, "s(%s)" % hx("h61"), 2)))
         return flow.mk_cases("hist", items)
+
+    def run_impl(self, lines):
+        # the race family needs calls to overlap within a microsecond: one process at a time (see C13)
+        race = [l for l in lines if " ;; " in l]
+        rest = [l for l in lines if " ;; " not in l]
+        res = core.run_impl(rest)
+        res.update(core.run_lines([build.impl_bin("debug")], race, nshards=1))
+        return res
 
     def show(self, case):
         return [unhx(o.split(":")[-1]) if o.split(":")[0] in ("EXEC", "PARSE") else o for o in case.line.split(" ")[1:]]
